@@ -476,6 +476,10 @@ class FileResponse(Response, FileResponseMixin):
     async def __call__(self, scope: Scope, receive: Receive, send: Send) -> None:
         send_header_only = scope["method"] == "HEAD"
 
+        # The same response object may answer several requests:
+        # forget the range of an earlier one.
+        self.headers.pop("content-range", None)
+
         stat_result = self.stat_result
         file_size = stat_result.st_size
 
